@@ -588,6 +588,29 @@ func (d *SDriver) Exec(op SOp) (outs []SOut) {
 		d.Stream.Open()
 		outs = d.openOuts(d.Hand.Take())
 	case "rebclose":
+		if d.IsDcp {
+			// around a whole Dcp the reopen timer is left armed (ten minutes): Close() may arrive in this window
+			d.cfg.Dcp.Group.Membership.RebalanceDelay = 10 * time.Minute
+			go d.Stream.Rebalance()
+			deadline := time.Now().Add(3 * time.Second)
+			for {
+				done := false
+				for _, n := range d.Hand.Peek() {
+					if n == "AfterRebalanceStart" {
+						done = true
+					}
+				}
+				if done {
+					break
+				}
+				if time.Now().After(deadline) {
+					return []SOut{{Kind: "ignored", Note: "the close half of the rebalance did not finish"}}
+				}
+				time.Sleep(time.Millisecond)
+			}
+			time.Sleep(5 * time.Millisecond) // Rebalance() arms the timer right after that callback
+			return d.closeOuts(d.Hand.Take())
+		}
 		d.Hand.SetHold("BeforeRebalanceEnd", true)
 		d.Stream.Rebalance()
 		select {
@@ -603,6 +626,21 @@ func (d *SDriver) Exec(op SOp) (outs []SOut) {
 		outs = d.closeOuts(cbs)
 		outs = append(outs, d.checkStop(30*time.Millisecond)...)
 	case "rebopen":
+		if d.IsDcp {
+			// a further notification with a short delay pushes the armed timer to "now"
+			d.setServer(op.Sv)
+			d.Hand.SetHold("AfterRebalanceEnd", true)
+			d.cfg.Dcp.Group.Membership.RebalanceDelay = time.Millisecond
+			d.Stream.Rebalance()
+			select {
+			case <-d.Hand.Held:
+			case <-time.After(3 * time.Second):
+				return []SOut{{Kind: "ignored", Note: "rebalance did not finish"}}
+			}
+			d.Hand.SetHold("AfterRebalanceEnd", false)
+			d.Hand.Resume()
+			return d.openOuts(d.Hand.Take())
+		}
 		d.Disc.Set(op.First, op.Last)
 		d.setServer(op.Sv)
 		d.Hand.SetHold("BeforeRebalanceEnd", false)
